@@ -416,7 +416,14 @@ macro_rules! submit_threaded_operation {
             return result_recv;
         }
 
+        let dropped_sender = result_send.clone();
+        let drop_guard = OperationDropGuard::new(Box::new(move || {
+            dropped_sender.apply(Err(GneissError::new_operation_channel_failure("client event loop exited before the operation was processed")));
+        }));
+        let drop_guard_switch = drop_guard.switch();
+
         let response_handler = Box::new(move |res| {
+            drop_guard.disarm();
             result_send.apply(res);
             Ok(())
         });
@@ -428,6 +435,7 @@ macro_rules! submit_threaded_operation {
 
         let submit_result = $self.operation_sender.send(OperationOptions::$operation_type(boxed_packet, internal_options));
         if let Err(submit_error) = submit_result {
+            drop_guard_switch.store(false, std::sync::atomic::Ordering::SeqCst);
             late_sender.apply(Err(GneissError::new_operation_channel_failure(submit_error)));
         }
 
@@ -440,8 +448,16 @@ macro_rules! submit_threaded_operation_with_callback {
         let boxed_packet = Box::new(MqttPacket::$packet_type($packet_value));
         validate_packet_outbound(&boxed_packet)?;
 
+        let completion_callback = Arc::new($completion_callback);
+        let dropped_callback = completion_callback.clone();
+        let drop_guard = OperationDropGuard::new(Box::new(move || {
+            (dropped_callback)(Err(GneissError::new_operation_channel_failure("client event loop exited before the operation was processed")));
+        }));
+        let drop_guard_switch = drop_guard.switch();
+
         let response_handler = Box::new(move |res| {
-            $completion_callback(res);
+            drop_guard.disarm();
+            (completion_callback)(res);
             Ok(())
         });
 
@@ -452,6 +468,7 @@ macro_rules! submit_threaded_operation_with_callback {
 
         let submit_result = $self.operation_sender.send(OperationOptions::$operation_type(boxed_packet, internal_options));
         if let Err(submit_error) = submit_result {
+            drop_guard_switch.store(false, std::sync::atomic::Ordering::SeqCst);
             return Err(GneissError::new_operation_channel_failure(submit_error));
         }
 
